@@ -1,7 +1,7 @@
 """C01 — ISO dates and the day timeline (order, floor decomposition, month/leap tables, kernel shift agreement)."""
 from ._std import *
 from ..rules import units
-from ..rules.common import hir_walk, node_line, fold
+from ..rules.common import tri, opaque, hir_walk, node_line, fold
 
 EXPLANATION = (
     "Static item, table and constant-agreement rules on the facts exported from /repo's current tree: the comparable "
@@ -87,13 +87,22 @@ def check_month_leap(run, fx, rs):
                     k, v = fold(ev2, f, [y, 2])
                     if not (k == "val" and v == want):
                         bad.append("%d -> %s %s (expected %d)" % (y, k, v, want))
-                run.check(not bad and "$year" in show(r), rule, "2", "February = 28 + leap flag of the same year (21 years folded)",
-                          "February length is wrong: %s" % "; ".join(bad[:4]) if bad else
-                          "February length does not depend on the year: %s" % show(r)[:80], f.loc)
+                und = [b for b in bad if "-> opaque" in b]
+                if und:
+                    run.ok(rule, "2", "February does not fold to a value: not decided", f.loc, nontrivial=False)
+                else:
+                    run.check(not bad, rule, "2", "February = 28 + leap flag of the same year (21 years folded)",
+                              "February length is wrong: %s" % "; ".join(bad[:4]), f.loc)
             else:
                 want = 31 if m in (1, 3, 5, 7, 8, 10, 12) else 30
-                run.check(r == want, rule, str(m), "month %d = %s" % (m, r), "month %d has %s days, expected %d" % (m, r, want),
-                          f.loc)
+                if H.has_sym(r):
+                    # not a constant for a symbolic year: fold for two concrete years instead
+                    rr = [fold(H.Evaluator(fx), f, [y, m]) for y in (2023, 2024)]
+                    tri(run, rule, str(m), rr, all(x == ("val", want) for x in rr), "month %d = %d" % (m, want),
+                        "month %d has %s days, expected %d" % (m, [x[1] for x in rr], want), f.loc)
+                else:
+                    run.check(r == want, rule, str(m), "month %d = %s" % (m, r), "month %d has %s days, expected %d" % (m, r, want),
+                              f.loc)
         run.exhaustive_tables.append("iso_days_in_month (12 months)")
     rule2 = "R12.leap-year-rule"
     run.rule(rule2, "mathematical_days_in_year is 366 iff the year is divisible by 4 and (not by 100 or by 400), for every "
@@ -107,19 +116,21 @@ def check_month_leap(run, fx, rs):
         for y in (1, 2, 3, 4, 8, 100, 200, 300, 400, 800, 1900, 2000, 2023, 2024, 0, -1, -4, -100, -400, -271820, 275760):
             want = 366 if (y % 4 == 0 and (y % 100 != 0 or y % 400 == 0)) else 365
             k, v = fold(ev, g, [y])
-            run.check(k == "val" and v == want, rule2, "year/%d" % y, "days_in_year(%d) = %s" % (y, v),
-                      "mathematical_days_in_year(%d) = %s %s, Gregorian rule gives %d" % (y, k, v, want), g.loc)
+            tri(run, rule2, "year/%d" % y, (k, v), k == "val" and v == want, "days_in_year(%d) = %s" % (y, v),
+                "mathematical_days_in_year(%d) = %s %s, Gregorian rule gives %d" % (y, k, v, want), g.loc)
         run.exhaustive_tables.append("leap rule (4 atom valuations x 2 signs)")
     h = rs.fn("temporal_rs::utils::mathematical_in_leap_year")
     if h is not None:
-        ev = H.Evaluator(fx)
-        ev.inline = lambda p: False
-        r = ev.call_fn(h, [H.Sym("param", ("t",))])
-        s = show(r)
-        ok = isinstance(r, H.Sym) and r.what == "bin-" and r.parts[1] == 365 and "mathematical_days_in_year" in s and \
-            "epoch_time_to_epoch_year($t)" in s
-        run.check(ok, rule2, "in_leap_year", s, "mathematical_in_leap_year computes %s; expected days_in_year(year of t) - 365"
-                  % s, h.loc)
+        # folded at the first millisecond of one year per valuation of the divisibility atoms (values, not shapes)
+        import datetime
+        for y in (1970, 1972, 1900, 2000, 2023, 2024, 2100, 2400, 1600, 1, 4, 100, 400):
+            t = (datetime.date(y, 1, 1) - datetime.date(1970, 1, 1)).days * 86_400_000
+            want = 1 if (y % 4 == 0 and (y % 100 != 0 or y % 400 == 0)) else 0
+            k, v = fold(H.Evaluator(fx), h, [float(t)])
+            if k == "opaque":
+                k, v = fold(H.Evaluator(fx), h, [t])
+            tri(run, rule2, "in_leap_year/%d" % y, (k, v), k == "val" and v == want, "in_leap_year(start of %d) = %s" % (y, v),
+                "mathematical_in_leap_year at the start of year %d is %s %s, the Gregorian rule gives %d" % (y, k, v, want), h.loc)
 
 
 def addends(t):
